@@ -18,7 +18,7 @@ type diffsObs struct {
 
 func runC19(cfg *vh.Config) error {
 	res := vh.NewResult("C19", cfg.Seed)
-	res.Rule = "inputs: formatter templates (trailing comments, several statements per line, multi-line tokens, leading/trailing blank lines, whitespace-only gaps), the repository's .j5s/.bcl/fixture files, grammar-generated files (1/5 mutated), windows of repository files (1/3 mutated), random <=3-token sequences; non-trivial = distinct input the formatter accepts with at least one statement"
+	res.Rule = "inputs: formatter templates (trailing comments, several statements per line, multi-line tokens, leading/trailing blank lines, whitespace-only gaps), the repository's .j5s/.bcl/fixture files, grammar-generated files (1/5 mutated), windows of repository files (1/3 mutated), random <=3-token sequences, a pinned byte-level corpus (valid multi-byte characters, Unicode spaces, every kind of invalid UTF-8 in every literal kind), pinned templates (two fragments sharing a line where the second runs on, a multi-line block comment as the last fragment, empty arrays, runs of empty description lines); the run also counts whether FmtDiffs of the formatter's own output is empty; non-trivial = distinct input the formatter accepts with at least one statement"
 	cf := &vh.CasesFile{
 		Header: "From Coq Require Import String List NArith ZArith.\nFrom J5V.model Require Import BclFmtCorr.",
 		Type:   "fmtcase",
@@ -95,6 +95,20 @@ func runC19(cfg *vh.Config) error {
 				}
 				if !okL {
 					res.Fail(vh.Failure{Case: caseNo, Stream: in.stream, Sig: "C19 LSP TextEdits differ from FmtDiffs", Clause: "the list of line edits offered to editors", Input: inS, Got: fmt.Sprint(lg.Val)})
+				}
+				// the editor reaches a fixed point after one format: the formatted text has no edits left
+				// (follows from C19 + C09 only up to no-op edits; observed, reported, not decisive)
+				if sg := guard(5*time.Second, func() diffsObs { e, err := bcl.FmtDiffs(fmtOut); return diffsObs{e, err} }); sg.Panic == nil && !sg.Timeout && sg.Val.err == nil {
+					if len(sg.Val.edits) == 0 {
+						res.Count("second_format_no_edits")
+					} else {
+						res.Count("second_format_has_edits")
+						if len(res.Notes) < 5 {
+							res.Notes = append(res.Notes, fmt.Sprintf("FmtDiffs(Fmt(x)) is not empty for %s: %v", inS, sg.Val.edits))
+						}
+					}
+				} else {
+					res.Fail(vh.Failure{Case: caseNo, Stream: in.stream, Sig: "C19 FmtDiffs fails on the formatter's own output", Clause: "the list of line edits is computed without failure", Input: fmt.Sprintf("Fmt(%s)", inS), Got: fmt.Sprint(sg.Panic, sg.Val.err)})
 				}
 			}
 		}
